@@ -44,6 +44,9 @@ void harness(void)
     unsigned char buf[VF_N + VF_CTX + 1];
     unsigned n = nondet_uint(), c = nondet_uint();
     VF_ASSUME(n <= VF_N && c <= VF_CTX);
+#ifdef VF_EXACT_N
+    n = VF_N;                  /* one query per length */
+#endif
 #ifdef VF_TAIL_ALIGN     /* terminator = last byte of the object */
     unsigned char *s = buf + ((VF_N + VF_CTX) - (n + c));
 #else
